@@ -446,7 +446,11 @@ func (f *c05Fleet) exec(oi int, op C05Op) error {
 		}
 		_ = nd.S.VerifCleaner().RunOnce(context.Background(), f.now)
 	case "fault":
-		nd.H.SetPlan(op.FKind, op.Faults)
+		if op.FKind == "load-own" {
+			nd.H.SetPlanFor("load", "__"+nd.Name+"__", op.Faults)
+		} else {
+			nd.H.SetPlan(op.FKind, op.Faults)
+		}
 	case "corrupt-own":
 		// a damaged upload: the newest snapshot of this instance is replaced by garbage under a newer name
 		nm := snapshot.Name(DBName, nd.Name, "GX", time.Now())
@@ -535,8 +539,11 @@ func genC05(t *rapid.T) C05Case {
 		case "clean":
 			op.DtNs = rapid.SampledFrom([]int64{0, int64(time.Millisecond), int64(2 * time.Second), int64(2 * time.Hour), int64(8 * 24 * time.Hour)}).Draw(t, "dt")
 		case "fault":
-			op.FKind = rapid.SampledFrom([]string{"list", "load", "store", "delete"}).Draw(t, "fkind")
+			op.FKind = rapid.SampledFrom([]string{"list", "load", "load-own", "store", "delete"}).Draw(t, "fkind")
 			nf := rapid.IntRange(1, 3).Draw(t, "nf")
+			if op.FKind == "load-own" {
+				nf = rapid.SampledFrom([]int{2, 10, 40}).Draw(t, "nf_own") // only downloads of the instance's own snapshots fail
+			}
 			if op.FKind == "store" && rapid.IntRange(0, 3).Draw(t, "exhaust") == 0 {
 				nf = rapid.IntRange(4, 6).Draw(t, "nf_exhaust") // retry budget (4) exhausted: Sync must give up, not pretend
 			}
@@ -545,7 +552,7 @@ func genC05(t *rapid.T) C05Case {
 				if op.FKind == "store" || op.FKind == "delete" {
 					kinds = append(kinds, fault.AppliedError)
 				}
-				if op.FKind == "load" {
+				if op.FKind == "load" || op.FKind == "load-own" {
 					kinds = append(kinds, fault.NotExist)
 				}
 				op.Faults = append(op.Faults, rapid.SampledFrom(kinds).Draw(t, "fk"))
@@ -575,22 +582,36 @@ type enumC05 struct {
 	Forced bool `json:"forced,omitempty"`
 	// NoApp: the application writes nothing after the restart
 	NoApp bool `json:"no_app,omitempty"`
+	// Again: the restarted instance is killed a second time (LMDB kept this time) - "at-once": at its first
+	// yield point, right after the application's write; "later": ten yields on. The third life then starts
+	// with an LMDB that has data, but not the data of its own snapshot.
+	Again string `json:"again,omitempty"`
 }
 
 func TestC05Enum(t *testing.T) {
 	vcore.RunEnum(t, vcore.Config{Property: "C05", Inflight: true,
-		Rule: "fault enumeration: instance A publishes key k (only copy), a peer B publishes k2; A is crashed at EVERY yield point (14) while it uploads a second change, restarted with the LMDB {kept, emptied}, with its own newest snapshot {downloadable, failing to load twice, followed by an undecodable newer blob, failing to load eight times while every other listing fails}; the application writes k' right after the restart; for emptied restarts additionally with storage_force_snapshot_interval = 1 ns (a periodic snapshot always overdue) x {the application writes k', writes nothing}; both loops run on; invariants as in TestC05Bucket after every bucket mutation; non-trivial = emptied restart"},
+		Rule: "fault enumeration: instance A publishes key k (only copy), a peer B publishes k2; A is crashed at EVERY yield point (14) while it uploads a second change, restarted with the LMDB {kept, emptied}, with its own newest snapshot {downloadable, failing to load twice, followed by an undecodable newer blob, failing to load eight times while every other listing fails, only the instance's own snapshots failing to load forty times}; for emptied restarts also a second kill with the LMDB kept, at the first yield point or ten yields later (third life: an LMDB with data but not the data of its own snapshot); the application writes k' right after the restart; for emptied restarts additionally with storage_force_snapshot_interval = 1 ns (a periodic snapshot always overdue) x {the application writes k', writes nothing}; both loops run on; invariants as in TestC05Bucket after every bucket mutation; non-trivial = emptied restart"},
 		func(yield func(enumC05) bool) {
 			for _, native := range []bool{true, false} {
 				for _, p := range loopYieldPoints {
 					for _, keep := range []bool{true, false} {
-						for _, own := range []string{"ok", "fail2", "corrupt-newest", "slow+listfail"} {
+						for _, own := range []string{"ok", "fail2", "corrupt-newest", "slow+listfail", "own-slow"} {
+							if own == "own-slow" && keep {
+								continue
+							}
 							if !yield(enumC05{Native: native, Point: p, Keep: keep, Own: own}) {
 								return
 							}
 							if !keep {
 								for _, noApp := range []bool{false, true} {
 									if !yield(enumC05{Native: native, Point: p, Keep: keep, Own: own, Forced: true, NoApp: noApp}) {
+										return
+									}
+								}
+							}
+							if !keep && (own == "ok" || own == "fail2") {
+								for _, again := range []string{"at-once", "later"} {
+									if !yield(enumC05{Native: native, Point: p, Keep: keep, Own: own, Again: again}) {
 										return
 									}
 								}
@@ -621,6 +642,15 @@ func TestC05Enum(t *testing.T) {
 				c.Ops = append(c.Ops, C05Op{Kind: "fault", Inst: 0, FKind: "load", Faults: []string{fault.Fail, fault.Fail}})
 			case "corrupt-newest":
 				c.Ops = append(c.Ops, C05Op{Kind: "corrupt-own", Inst: 0})
+			case "own-slow":
+				// only the downloads of the instance's OWN snapshots fail, forty times in a row (everything else,
+				// e.g. the peer's snapshot, arrives at once): the instance waits for its own data for a long time
+				// while it already has merged somebody else's
+				var ldf []string
+				for i := 0; i < 40; i++ {
+					ldf = append(ldf, fault.Fail)
+				}
+				c.Ops = append(c.Ops, C05Op{Kind: "fault", Inst: 0, FKind: "load-own", Faults: ldf})
 			case "slow+listfail":
 				// the own snapshot needs many attempts, and meanwhile every other listing fails (whichever of them
 				// is the start-up one: that one is retried): a failed listing says nothing about what exists
@@ -634,6 +664,12 @@ func TestC05Enum(t *testing.T) {
 			c.Ops = append(c.Ops, C05Op{Kind: "crash", Inst: 0, Keep: e.Keep})
 			if !e.NoApp {
 				c.Ops = append(c.Ops, C05Op{Kind: "app", Inst: 0, Changes: put(3, "written-after-restart")})
+			}
+			switch e.Again {
+			case "at-once":
+				c.Ops = append(c.Ops, C05Op{Kind: "crash", Inst: 0, Keep: true})
+			case "later":
+				c.Ops = append(c.Ops, C05Op{Kind: "step", Inst: 0, Steps: 10}, C05Op{Kind: "crash", Inst: 0, Keep: true})
 			}
 			c.Ops = append(c.Ops,
 				C05Op{Kind: "step", Inst: 0, Steps: 80},
